@@ -15,7 +15,7 @@ class ParseError(Exception):
 
 _NUM = re.compile(r'\d+(\.\d+)?(e-?\d+)?')
 _STR = re.compile(r'"((?:[^"]|"")*)"')
-_SHEET = r"(?:(?:'([^'!]*)'|([^\W]*?))!)"
+_SHEET = r"(?:(?:'([^'!]+)'|([^\W]+?))!)"        # a sheet prefix names a sheet: an empty one is not in the grammar
 _REF = re.compile(_SHEET + r'?\$?([A-Z]{1,3})\$?(\d{1,7})(?::\$?([A-Z]{1,3})\$?(\d{1,7}))?(?![\d(A-Za-z_])')
 _COLREF = re.compile(_SHEET + r'?\$?([A-Z]{1,3}):\$?([A-Z]{1,3})(?![\d(A-Za-z_$])')
 _FUNC = re.compile(r'([A-Z]+)\(')
